@@ -161,6 +161,105 @@ theorem no_record_means_synced (evs : List Ev) (h : (run evs).record = false) : 
   intro e
   exact Classical.byContradiction (fun hne => by have := howed e hne; rw [hno] at this; cases this)
 
+/-! ### nothing invented, nothing taken back, and a status that tells the truth -/
+
+/-- B never holds more than A wrote, and A's replicator status is "inactive" exactly while a retry record exists -/
+def Inv2 (s : St) : Prop := (∀ d, ver s.b d ≤ ver s.a d) ∧ s.active = !s.record
+
+theorem push_inv2 (s : St) (d : Nat) (h : Inv2 s) : Inv2 (push s d) ∧ ∀ e, ver s.b e ≤ ver (push s d).b e := by
+  obtain ⟨hle, hst⟩ := h
+  unfold push
+  by_cases hup : s.bUp = true
+  · simp only [hup, if_true]
+    refine ⟨⟨fun e => ?_, hst⟩, fun e => ?_⟩
+    · by_cases hde : d = e
+      · subst hde; rw [ver_setVer_same]; exact Nat.le_refl _
+      · rw [ver_setVer_other _ _ _ _ hde]; exact hle e
+    · by_cases hde : d = e
+      · subst hde; rw [ver_setVer_same]; exact hle d
+      · rw [ver_setVer_other _ _ _ _ hde]; exact Nat.le_refl _
+  · simp only [hup, Bool.false_eq_true, if_false]
+    exact ⟨⟨hle, rfl⟩, fun e => Nat.le_refl _⟩
+
+theorem step_inv2 (s : St) (ev : Ev) (h : Inv2 s) : Inv2 (step s ev) ∧ ∀ e, ver s.b e ≤ ver (step s ev).b e := by
+  obtain ⟨hle, hst⟩ := h
+  cases ev with
+  | down => exact ⟨⟨hle, hst⟩, fun e => Nat.le_refl _⟩
+  | up => exact ⟨⟨hle, hst⟩, fun e => Nat.le_refl _⟩
+  | write d =>
+    have h' : Inv2 { s with a := setVer s.a d (ver s.a d + 1) } := by
+      refine ⟨fun e => ?_, hst⟩
+      show ver s.b e ≤ ver (setVer s.a d (ver s.a d + 1)) e
+      by_cases hde : d = e
+      · subst hde; rw [ver_setVer_same]; exact Nat.le_succ_of_le (hle d)
+      · rw [ver_setVer_other _ _ _ _ hde]; exact hle e
+    simp only [step]
+    by_cases hr : s.hasRep = true
+    · simp only [hr, if_true]
+      exact push_inv2 _ d h'
+    · simp only [hr, Bool.false_eq_true, if_false]
+      exact ⟨h', fun e => Nat.le_refl _⟩
+  | retry =>
+    simp only [step]
+    by_cases hc : (s.hasRep && s.record && !s.retrying) = true
+    · simp only [hc, if_true]
+      by_cases hup : s.bUp = true
+      · simp only [hup, if_true]
+        refine ⟨⟨fun e => ?_, rfl⟩, fun e => ?_⟩
+        · show ver (s.owed.foldl (fun b d => setVer b d (ver s.a d)) s.b) e ≤ ver s.a e
+          rw [ver_foldl_push]
+          split
+          · exact Nat.le_refl _
+          · exact hle e
+        · show ver s.b e ≤ ver (s.owed.foldl (fun b d => setVer b d (ver s.a d)) s.b) e
+          rw [ver_foldl_push]
+          split
+          · exact hle e
+          · exact Nat.le_refl _
+      · simp only [hup, Bool.false_eq_true, if_false]
+        exact ⟨⟨hle, hst⟩, fun e => Nat.le_refl _⟩
+    · simp only [hc, Bool.false_eq_true, if_false]
+      exact ⟨⟨hle, hst⟩, fun e => Nat.le_refl _⟩
+
+theorem run_inv2 (evs : List Ev) : Inv2 (run evs) := by
+  unfold run
+  have h0 : Inv2 ({} : St) := ⟨fun d => by simp [ver], rfl⟩
+  generalize ({} : St) = s at h0
+  induction evs generalizing s with
+  | nil => exact h0
+  | cons ev t ih => exact ih _ (step_inv2 s ev h0).1
+
+/-- **nothing invented**: after any history of writes, outages and retry rounds the target holds, of every document,
+    at most what the source wrote -/
+theorem target_never_ahead (evs : List Ev) (d : Nat) : ver (run evs).b d ≤ ver (run evs).a d :=
+  (run_inv2 evs).1 d
+
+theorem foldl_step_mono (more : List Ev) : ∀ (s : St), Inv2 s → ∀ d, ver s.b d ≤ ver (more.foldl step s).b d := by
+  induction more with
+  | nil => intro s _ d; exact Nat.le_refl _
+  | cons ev t ih =>
+    intro s h0 d
+    obtain ⟨h1, hm⟩ := step_inv2 s ev h0
+    exact Nat.le_trans (hm d) (ih (step s ev) h1 d)
+
+/-- **nothing taken back**: what the target holds of a document never shrinks, whatever happens next -/
+theorem target_never_regresses (evs more : List Ev) (d : Nat) :
+    ver (run evs).b d ≤ ver (run (evs ++ more)).b d := by
+  have hrun : run (evs ++ more) = more.foldl step (run evs) := by unfold run; rw [List.foldl_append]
+  rw [hrun]
+  exact foldl_step_mono more (run evs) (run_inv2 evs) d
+
+/-- **the status tells the truth**: the replicator is reported inactive exactly while a retry record exists — so an
+    active replicator owes nothing (`no_record_means_synced`) -/
+theorem active_means_synced (evs : List Ev) (h : (run evs).active = true) : Synced (run evs) := by
+  have hst := (run_inv2 evs).2
+  rw [h] at hst
+  have : (run evs).record = false := by
+    cases hr : (run evs).record
+    · rfl
+    · rw [hr] at hst; cases hst
+  exact no_record_means_synced evs this
+
 /-! ### non-vacuity -/
 
 /-- two consecutive outages, each followed by a successful retry round -/
